@@ -95,6 +95,7 @@ class H(object):
         self.req_results = []          # [(label, status, info)]
         self.failed_labels = []        # concrete mode
         self.used_inputs = []
+        self.facts = {}
 
     # -- inputs ---------------------------------------------------------------------------
 
@@ -164,6 +165,10 @@ class H(object):
     def ite(self, c, a, b):
         return core.ite(c, a, b)
 
+    def fact(self, name, value):
+        """Name a derived quantity so that known-finding predicates can refer to it."""
+        self.facts[name] = value
+
 
 def _eval_known(k, h):
     env = {'And': core.s_and, 'Or': core.s_or, 'Not': core.s_not, 'ite': core.ite,
@@ -174,6 +179,7 @@ def _eval_known(k, h):
         else:
             env[name] = h.inputs.get(name, 0)
     env['params'] = h.case.params
+    env.update(h.facts)
     return eval(k['predicate'], {'__builtins__': {'abs': abs, 'min': min, 'max': max, 'len': len}}, env)
 
 
